@@ -790,9 +790,10 @@ func init() {
 func init() {
 	register(&checkDef{prop: "C12", parts: []part{
 		{name: "c12", gen: genC12, monitors: []Monitor{monC12, monC14}, labels: labelsC12, nontrivial: ntC12, quick: 800, thorough: 25000},
+		{name: "stress_registry", gen: genStressReg, exec: execStressReg, monitors: []Monitor{monStressReg}, labels: labelsStressReg, nontrivial: ntStressReg, quick: 100, thorough: 4000, race: true, procs: 16, shards: 4},
 		{name: "c12_windows", gen: genC12Win, monitors: []Monitor{monC12, monC14}, labels: labelsC12Win, nontrivial: ntC12Win, quick: 1200, thorough: 40000},
 	},
-		rule: "model-based registry histories: open(key) with keys from a small colliding pool incl. nil and no key function, close from the handler side / by Stop / by context / by carrier break, RPCs routed through AsChannel or KeyAsChannel(k) (with bursts), Ready, WaitForReady with virtual-time timeouts, AllReverseTunnels, executed one at a time to quiescence against the real handler and against a list model in lock-step; yield points between the two registration / deregistration steps armed; non-trivial = at least two tunnels share a key and a close happened between routed RPCs. c12_windows: the same histories with opens and closes held half-way (parked inside the application's AffinityKey / open / close callbacks or at the yield points between the registry's steps) while other operations run, judged against a three-valued model (in / out / in transition); non-trivial = a registry query ran while an open or close was held"})
+		rule: "model-based registry histories: open(key) with keys from a small colliding pool incl. nil and no key function, close from the handler side / by Stop / by context / by carrier break, RPCs routed through AsChannel or KeyAsChannel(k) (with bursts), Ready, WaitForReady with virtual-time timeouts, AllReverseTunnels, executed one at a time to quiescence against the real handler and against a list model in lock-step; yield points between the two registration / deregistration steps armed; non-trivial = at least two tunnels share a key and a close happened between routed RPCs. c12_windows: the same histories with opens and closes held half-way (parked inside the application's AffinityKey / open / close callbacks or at the yield points between the registry's steps) while other operations run, judged against a three-valued model (in / out / in transition); non-trivial = a registry query ran while an open or close was held. stress_registry: 2-8 goroutines concurrently open tunnels (fresh and colliding keys) and wait for / query / route through the same keys, free-running on 16 Ps under the race detector; since the set only grows, the end state is schedule-independent: every key with a tunnel is Ready and routes to a tunnel with that key, AllReverseTunnels lists exactly the opened tunnels, every WaitForReady on such a key has returned nil (a call still parked in its select while Ready() is true is a lost wake-up, judged by state), and after stopping everything both registry levels are empty; non-trivial = at least two goroutines and a key that was both opened and waited for / queried / routed through"})
 }
 
 func init() {
